@@ -20,6 +20,7 @@ import Mdsort.Model.Plan
 import Mdsort.Model.Inspect
 import Mdsort.Model.Lex
 import Mdsort.Spec.Rules
+import Mdsort.Proofs.EvalAtt
 import Mdsort.Spec.Interp
 import Mdsort.Proofs.Interp
 import Mdsort.Spec.Flags
@@ -359,6 +360,38 @@ def handleSpecEval (args : List Bytes) : String :=
           let o := Spec.evalBlock v aerr rules
           let (np, lp) := Spec.planOf (o.actions.filterMap Spec.actKey)
           s!"{triName o.res} {if o.crosses then "CROSSES" else "LOCAL"} [{String.intercalate "," (np.map keyStr)}] {match lp with | none => "-" | some k => keyStr k}"
+  | _ => "BADOP"
+
+/-- Specification side of `eval` WITH attachment conditions and attachment blocks: the documented rule
+semantics `Spec.evalBlockA` (Spec/RulesAtt.lean) in exactly the instance the theorems `C03_eval_refines_spec_att`
+and `C04_eval_error_propagates` are about (`Proofs.partCtx`: the parts `message_get_attachments` returns and
+every matcher evaluated on its own; `Proofs.actionErr`).  Answer:
+`<MATCH|NOMATCH|ERROR> <CROSSES|LOCAL> <LEAKS|TIGHT> <DOM|NODOM> [type:line:part,...]` - the result, the two
+recorded deviation classes (F11, F24), whether the tree is in `Proofs.InDomainA`, and on a match the actions in
+order with the index of the part each was collected on.  NOTWF: not a tree the grammar builds. -/
+def handleSpecEvalAtt (args : List Bytes) : String :=
+  match args with
+  | ast :: file :: path :: _dry :: now :: _ =>
+    match Driver.parseExpr (String.ofList (ast.map fun c => Char.ofNat c.toNat)) with
+    | none => "BADAST"
+    | some e =>
+      match Spec.parseBlockA e with
+      | none => "NOTWF"
+      | some rules =>
+        let nowI : Int := ((String.ofList (now.map fun c => Char.ofNat c.toNat)).toInt?).getD 0
+        let msg := Model.parseMessage file
+        let name := (path.reverse.takeWhile (· != 47)).reverse
+        match Model.flagsParse name with
+        | none => "NOTWF"
+        | some mf =>
+          let env : Model.Env := {
+            rx := rxFFI, command := commandOracle, isDir := fun p => (ofString "/yes").isSuffixOf p, now := nowI,
+            strptime := strptimeEnv, zoneName := zoneEnv nowI, fileTime := fun _ => none,
+            dryrun := false, path := path }
+          let o := Spec.evalBlockA (Proofs.partCtx env msg mf) Proofs.actionErr msg rules
+          let keys := o.actions.filterMap Spec.actKeyP
+          let ks := keys.map fun k => s!"{k.1.name}:{k.2.1}:{k.2.2}"
+          s!"{triName o.res} {if o.crosses then "CROSSES" else "LOCAL"} {if o.leaks then "LEAKS" else "TIGHT"} {if Proofs.InDomainA env e then "DOM" else "NODOM"} [{String.intercalate "," ks}]"
   | _ => "BADOP"
 
 /-- `interp <template> <path or ~ for no macro table> (<group>* 7c)*`: model and specification side by side. -/
@@ -748,6 +781,7 @@ def handle (side op : String) (args : List String) : String :=
   | "S", "r2047", some [s] => toHex (cstr (Spec.rfc2047 s))
   | "S", "eval", some as => handleSpecEval as
   | "S", "hcond", some as => handleSpecHcond as
+  | "S", "evalatt", some as => handleSpecEvalAtt as
   | sd, "interp", some as => handleInterp sd as
   | sd, o, some as =>
     if ["tzoff", "tparse", "flagsp", "flagss", "msgflags", "pslice", "pjoin", "dest"].contains o then
